@@ -1,0 +1,16 @@
+/*
+ * Verification hooks: scheduling points for a deterministic simulator.
+ * Compiled to nothing unless LIBLCB_VERIF is defined.
+ */
+
+#ifndef __ABSTRACTION_LAYER_VERIF_H__
+#define __ABSTRACTION_LAYER_VERIF_H__
+
+#ifdef LIBLCB_VERIF
+void	liblcb_verif_yield(const char *site);
+#	define LIBLCB_VERIF_YIELD(__site)	liblcb_verif_yield((__site))
+#else
+#	define LIBLCB_VERIF_YIELD(__site)	((void)0)
+#endif
+
+#endif /* __ABSTRACTION_LAYER_VERIF_H__ */
